@@ -40,6 +40,7 @@ func RunRace(seed int64, dur time.Duration) (out []Ev) {
 		c.CreateColumn("e", column.ForEnum())
 		c.CreateColumn("b", column.ForBool())
 		c.CreateIndex("big", "a", func(r column.Reader) bool { return r.Int() >= 5 })
+		c.CreateSortIndex("sorted", "s")
 	}
 	K.CreateColumn("k", column.ForKey())
 	K.CreateColumn("a", column.ForInt64())
@@ -91,6 +92,33 @@ func RunRace(seed int64, dur time.Duration) (out []Ev) {
 			return nil
 		})
 	})
+	// aborted transactions: inserts that are rolled back, inserts whose callback fails (offset released at once)
+	spawn(2, func(lr *rand.Rand) {
+		P.Query(func(txn *column.Txn) error {
+			for i := 0; i < 1+lr.Intn(8); i++ {
+				txn.Insert(func(r column.Row) error {
+					r.SetInt64("a", 3)
+					if lr.Intn(4) == 0 {
+						return fmt.Errorf("refused")
+					}
+					return nil
+				})
+			}
+			if lr.Intn(4) != 0 {
+				return fmt.Errorf("abort")
+			}
+			return nil
+		})
+		P.Query(func(txn *column.Txn) error { txn.Count(); return nil })
+	})
+	// single-row inserts and deletes through the collection's shortcuts
+	spawn(1, func(lr *rand.Rand) {
+		o, err := P.Insert(func(r column.Row) error { r.SetInt64("a", 1); r.SetString("s", "yy"); return nil })
+		if err == nil && lr.Intn(2) == 0 {
+			P.DeleteAt(o)
+		}
+		P.Count()
+	})
 	// deleters: offsets are reused
 	spawn(1, func(lr *rand.Rand) {
 		P.Query(func(txn *column.Txn) error {
@@ -134,6 +162,11 @@ func RunRace(seed int64, dur time.Duration) (out []Ev) {
 			txn.Range(func(idx uint32) { n++ })
 			return nil
 		})
+		P.Query(func(txn *column.Txn) error {
+			n := 0
+			txn.Ascend("sorted", func(idx uint32) { n++ })
+			return nil
+		})
 	})
 	// snapshots, restored into other collections
 	spawn(1, func(lr *rand.Rand) {
@@ -150,8 +183,13 @@ func RunRace(seed int64, dur time.Duration) (out []Ev) {
 		}
 		time.Sleep(20 * time.Millisecond)
 	})
-	// index builds and drops, a late column
-	spawn(1, func(lr *rand.Rand) {
+	// index builds and drops beside the writers (odd seeds only: the known races on the registry and on index
+	// back-fill end many such runs early with a panic, the even seeds run their full time without them)
+	builders := 0
+	if seed%2 != 0 {
+		builders = 1
+	}
+	spawn(builders, func(lr *rand.Rand) {
 		name := fmt.Sprintf("ix%d", lr.Intn(3))
 		if P.CreateIndex(name, "a", func(r column.Reader) bool { return r.Int()%2 == 0 }) == nil {
 			P.Query(func(txn *column.Txn) error { txn.With(name).Count(); return nil })
@@ -185,7 +223,7 @@ func RunRace(seed int64, dur time.Duration) (out []Ev) {
 	go func() { wg.Wait(); close(done) }()
 	select {
 	case <-done:
-		w.T.Log(Ev{"e": "stress", "ops": int(atomic.LoadInt64(&ops)), "rows": P.Count(), "terminated": true})
+		w.T.Log(Ev{"e": "stress", "ops": int(atomic.LoadInt64(&ops)), "rows": P.Count(), "terminated": true, "builders": builders})
 	case <-time.After(func() time.Duration {
 		if atomic.LoadInt32(&crashed) == 1 {
 			return 2 * time.Second
